@@ -26,6 +26,11 @@ def lifecycle_script(sid, seq, okdir, baddir, uid0, leak=True, busy=False):
                 for k in range(3): s.add("ll bidib_send_sys_ping 02 00 00 %02x" % k)
                 s.add("feed " + wire.hexs(wire.packet([wire.msg([1], 0, 0x82, [k]) for k in range(5)])))
             ev.append(((i, j), {"e": "start", "cfg": c, "debug": d, "flush": f, "works": w}))
+        elif st[0] == "startserial":
+            # the serial entry point with a device that does not exist / no device at all
+            _, dev, c = st
+            i = len(s.lines); s.add("startserial %s %s 0" % ("/nonexistent/ttyBiDiB" if dev == "missing" else "~", {"ok": okdir, "bad": baddir}[c]))
+            ev.append(((i, None), {"e": "startserial", "dev": dev, "cfg": c}))
         else:
             i = len(s.lines); s.add("stop"); ev.append(((i, None), {"e": "stop"}))
     k = len(s.lines); s.add("stop"); ev.append(((k, None), {"e": "stop"}))
@@ -66,10 +71,15 @@ def _run(ctx, thorough, rng, exe, tmp):
             seqs.append([("start",) + a, ("stop",), ("start",) + b])
     for a in KINDS:          # start while running, stop while stopped
         seqs.append([("start",) + a, ("start",) + rng.choice(KINDS), ("stop",), ("stop",), ("start",) + rng.choice(KINDS)])
+    SER = [("startserial", d, c) for d in ("missing", "null") for c in ("ok", "bad")]
+    for a in SER:            # the serial entry point fails (no such device): before, between and after ordinary sessions, while running
+        for b in (KINDS if thorough else rng.sample(KINDS, 3)):
+            seqs.append([a, ("start",) + b, ("stop",), a, ("start",) + b, a, ("stop",), a])
     n3 = 600 if thorough else 60
     for _ in range(n3):
         k = rng.choice([3, 4, 5]); sq = []
         for _ in range(k):
+            if rng.random() < 0.15: sq.append(rng.choice(SER))
             sq.append(("start",) + rng.choice(KINDS))
             if rng.random() < 0.8: sq.append(("stop",))
         seqs.append(sq)
@@ -89,6 +99,7 @@ def _run(ctx, thorough, rng, exe, tmp):
             if idx is not None:
                 o = rr.out.get(idx[0], [{}])[0]
                 e["running"] = bool(o.get("running")); e["thr"] = thr_of(o)
+                if e["e"] == "startserial": e["ret"] = o.get("ret")
                 if e["e"] == "start":
                     e["ret"] = o.get("ret"); gl = rr.out.get(idx[1], [{}])[0]
                     e["seq"] = bool(gl.get("seq_enabled")); e["discard"] = bool(gl.get("discard_rx"))
